@@ -36,6 +36,8 @@ func blockStringValue(rawValue string) string {
 		for i, line := range lines {
 			if i > 0 && len(line) >= commonIndent {
 				lines[i] = line[commonIndent:]
+			} else if i > 0 {
+				lines[i] = ""
 			}
 		}
 	}
